@@ -273,7 +273,7 @@ verdict `Spec.runSpec` computes from the history and the model's own events has 
 theorem spec_connect_clause_passes_on_model (cfg : Cfg) (ok : CfgOK cfg) (hfuel : cfg.fuel = 0) (hperm : OrdPerm cfg)
     (hmt : cfg.mtClosed ≠ cfg.allTypes) (rs : List Round) (hwf : RoundsWF rs) :
     (Spec.runSpec cfg rs (Pyrtma.Drv.Manager.modelRun cfg rs).1 none).errs.filter (·.1 == "C06") = [] :=
-  spec_passes_on_model ok hfuel hperm hmt rs hwf "C06" (by simp [proven]) (fun h => absurd h (by decide))
+  spec_passes_on_model ok hfuel hperm hmt rs hwf "C06" (by simp [provenCore]) (fun h => absurd h (by decide))
 
 /-! ### Non-vacuity -/
 /-- two clients ask for id 10: the second is refused and closed, the first keeps it -/
